@@ -20,21 +20,21 @@ CHECKS = {
              "(3-5 validators, stakes landing exactly on 40/60/80%, all five vote kinds, two hashes, received "
              "certificates interleaved); every model transition is replayed into PoolImpl and each created "
              "certificate must equal, byte for byte, the certificate aggregated from exactly the expected votes "
-             "and must pass ValidatedCert::try_new.",
+             "and must pass ValidatedCert::try_new. The same transitions are replayed with all stakes scaled to the top of the u64 range (total 1.5e19-1.8e19): thresholds depend on ratios only. Code -> spec on real executions: every pool call and Votor step of every correct node of simulated networks (Byzantine equivocation / noise, loss, crashes, harness-triggered standstill recovery) is validated by TLC as a transition of Pool.tla / Votor.tla (Trace_Node.tla); mismatches in this property's observable are reported here.",
         note="BLS soundness (blst) trusted; bounded validator counts; " + TB,
         technique="TLA+ spec of the pool + TLC exhaustive BFS + spec->code transition replay",
         design="4 C03"),
     "C04": dict(
         text="TLC checks that the operational admission verdict equals the declarative conflict/equivalence table "
              "for every offered vote in every reachable accepted-vote state (AdmissionTable, CountedOnce), incl. "
-             "slot-bound verdicts around pruning; every (state, vote) pair is replayed into Pool::add_vote.",
+             "slot-bound verdicts around pruning; every (state, vote) pair is replayed into Pool::add_vote. Code -> spec on real executions: every pool call and Votor step of every correct node of simulated networks (Byzantine equivocation / noise, loss, crashes, harness-triggered standstill recovery) is validated by TLC as a transition of Pool.tla / Votor.tla (Trace_Node.tla); mismatches in this property's observable are reported here.",
         note="votes are validly signed (C09 covers admission of signatures); " + TB,
         technique="TLA+ spec + TLC exhaustive BFS + spec->code transition replay",
         design="4 C04"),
     "C06": dict(
         text="TLC checks S2N/S2S only-if and as-soon-as invariants over all arrival orders of votes, own vote, "
              "block registration and parent certificate (received notar/nf/ff or formed by votes), two competing "
-             "children of one parent; every transition replayed into PoolImpl comparing the emitted events.",
+             "children of one parent; every transition replayed into PoolImpl comparing the emitted events. A low-slot scenario puts the parent into the pruning watermark slot (its first certificate also finalizes it). Code -> spec on real executions: every pool call and Votor step of every correct node of simulated networks (Byzantine equivocation / noise, loss, crashes, harness-triggered standstill recovery) is validated by TLC as a transition of Pool.tla / Votor.tla (Trace_Node.tla); mismatches in this property's observable are reported here.",
         note="parent certification follows the code: certificate held in the parent's retained slot; " + TB,
         technique="TLA+ spec + TLC exhaustive BFS + spec->code transition replay",
         design="4 C06"),
@@ -46,7 +46,7 @@ CHECKS.update({
              "ReadyComplete, PRInputsJustified/Complete, AnnouncedInQuery, AtMostOnce) over every delivery order of "
              "consistent certificate universes spanning two windows (exhaustive) and three windows (simulation), "
              "interleaved with block registrations, finalization-driven pruning and waiter registration; every "
-             "transition is replayed into PoolImpl comparing ParentReady events, parents_ready() and woken waiters.",
+             "transition is replayed into PoolImpl comparing ParentReady events, parents_ready() and woken waiters. Code -> spec on real executions: every pool call and Votor step of every correct node of simulated networks (Byzantine equivocation / noise, loss, crashes, harness-triggered standstill recovery) is validated by TLC as a transition of Pool.tla / Votor.tla (Trace_Node.tla); mismatches in this property's observable are reported here.",
         note="certificate universes consistent with <20% Byzantine stake; ties inside one finalization step are "
              "compared as 'one of'; " + TB,
         technique="TLA+ spec + TLC exhaustive BFS and simulation + spec->code transition replay",
@@ -56,7 +56,7 @@ CHECKS.update({
              "bound verdicts over every delivery order of certificates / block-parent registrations (final before "
              "notar, children before parents, gaps, certificates for implicitly decided slots); every transition is "
              "replayed into PoolImpl comparing finalized_slot, the watermark, per-slot finality status, retained "
-             "slots and held certificates after every step.",
+             "slots and held certificates after every step. Code -> spec on real executions: every pool call and Votor step of every correct node of simulated networks (Byzantine equivocation / noise, loss, crashes, harness-triggered standstill recovery) is validated by TLC as a transition of Pool.tla / Votor.tla (Trace_Node.tla); mismatches in this property's observable are reported here.",
         note="certificate universes consistent with <20% Byzantine stake; " + TB,
         technique="TLA+ spec + TLC exhaustive BFS and simulation + spec->code transition replay",
         design="4 C08"),
@@ -64,7 +64,7 @@ CHECKS.update({
         text="recover_from_standstill is a transition enabled in every model state: TLC checks BundleProvesFinalized "
              "and FreshPoolCatchesUp (a fresh pool fed only the bundle reaches the same highest slot and ready parents); "
              "the replay invokes it after every prefix of every history, validates every bundled certificate and vote "
-             "as a receiver would, feeds them to a second fresh PoolImpl and compares.",
+             "as a receiver would, feeds them to a second fresh PoolImpl and compares. On simulated executions the harness triggers recover_from_standstill at every node every few virtual seconds; every bundle must equal StandstillBundle of the pool state reached through the validated trace and Votor must re-broadcast all of it (Trace_Node.tla).",
         note="Votor's forwarding of the bundle is covered by the Votor model (C05); " + TB,
         technique="TLA+ spec + TLC exhaustive BFS and simulation + spec->code transition replay",
         design="4 C18"),
@@ -80,7 +80,7 @@ CHECKS.update({
              "real Votor (hooks) and comparing the broadcast votes/certificates (incl. signer index) and the per-slot state. "
              "MC_Node.tla composes Pool.tla and Votor.tla as consensus.rs wires them (FIFO event channels, own votes looped back "
              "through the network with arbitrary delay): there the rules hold without assumptions about the pool, own votes are "
-             "never refused by the own pool, and the real PoolImpl + Votor pair is replayed against it.",
+             "never refused by the own pool, and the real PoolImpl + Votor pair is replayed against it. Code -> spec on real executions: every pool call and Votor step of every correct node of simulated networks (Byzantine equivocation / noise, loss, crashes, harness-triggered standstill recovery) is validated by TLC as a transition of Pool.tla / Votor.tla (Trace_Node.tla); mismatches in this property's observable are reported here. The voting rules are also evaluated on everything each node broadcast in those executions.",
         note="pool guarantees towards Votor are assumed in MC_Votor (established by C06) and dropped in MC_Node; " + TB,
         technique="TLA+ spec of Votor + TLC exhaustive BFS (bounded event count) + spec->code transition replay",
         design="4 C05"),
@@ -110,7 +110,7 @@ CHECKS.update({
              "duplication, reordering, chaotic prefix), crashes and equivocating Byzantine validators; every broadcast vote, "
              "held certificate and finalization report is recorded and TLC validates the execution against AlpenglowAbs "
              "(every correct vote must be an enabled abstract action; certificates and finalizations must be justified; "
-             "agreement / one chain / no final+skip evaluated after every event).",
+             "agreement / one chain / no final+skip evaluated after every event). (4) Every pool call and Votor step of every correct node in those executions is validated as a transition of Pool.tla / Votor.tla (Trace_Node.tla); one execution runs with stakes at the top of the u64 range, and the pool safe-to-* model is replayed at that scale.",
         note="bounded N and slots, no inductive proof; ideal signatures; the simulator's Byzantine validators equivocate on votes "
              "and, as leaders, show two different blocks per slot to different halves of the network; 'finalized and skip-certified' is read as DIRECT "
              "finalization (TLC shows an indirectly finalized ancestor's slot can legitimately carry a skip certificate); " + TB,
@@ -126,7 +126,7 @@ CHECKS.update({
              "AlpenglowAbs (Trace_Progress.tla) and, at the end of the trace, TLC evaluates the progress goal on the windows "
              "that started after stabilisation: every slot of a correct live leader's window finalized at every correct live "
              "node and not skip-certified, by a fast-finalization certificate when >= 80% of the stake is responsive; windows of "
-             "crashed / silent leaders skip-certified; highest finalized slot keeps up.",
+             "crashed / silent leaders skip-certified; highest finalized slot keeps up. An execution with an equivocating leader is judged as well (correct leaders behind it must still be finalized); every node step is validated against Pool.tla / Votor.tla (Trace_Node.tla); timer arming is compared in the Votor replay.",
         note="virtual time with the real timeout constants; the adequacy of the constants on a real network is not decided; "
              "sampled schedules (seeds), not all of them; a vacuity guard requires judged windows",
         technique="TLC exhaustive BFS of the abstract protocol with leaders (progress as terminal-state property); code->spec trace validation (Trace_Progress.tla) of simulated multi-node executions",
@@ -197,7 +197,7 @@ CHECKS.update({
              "repair responses, repair requests with unknown blocks / maximal indices / unknown senders and bursts of oversized "
              "transactions, and as leader disseminates validly signed malformed blocks (parent in a later / the same slot, "
              "undecodable payload, first slice without parent, contradictory slices, unknown parent); every panic anywhere in "
-             "the process is a violation and the execution must still satisfy the progress goal of Trace_Progress.tla.",
+             "the process is a violation and the execution must still satisfy the progress goal of Trace_Progress.tla. Every node step of those executions is also validated against Pool.tla / Votor.tla (Trace_Node.tla).",
         note="byte-level malformation below the wire grammar is not covered (C19 covers grammar-level classes); sampled "
              "schedules; hostile repair responses are unsolicited or mismatched (solicited-but-forged ones: C14); OS/UDP errors not covered",
         technique="TLA+ pipeline model + TLC BFS; hostile-traffic simulation of real nodes with panic capture and code->spec trace validation",
